@@ -1,7 +1,13 @@
 // Correspondence harness for C16: drives Xml::Parser / Xml::toString / Xml::Variant / Xml::Element
 // through their public interface only.
 #include "vh.hpp"
+#include <nstd/String.hpp>
+#include <nstd/HashMap.hpp>
+#include <nstd/List.hpp>
+// read-only access to Xml::Variant::data->ref for the reference count dump (never used to drive the code)
+#define private public
 #include <nstd/Document/Xml.hpp>
+#undef private
 
 static void hexs(const String& s)
 {
@@ -41,6 +47,25 @@ static void dump(const Xml::Element& e, bool pos)
   for(List<Xml::Variant>::Iterator i = e.content.begin(), end = e.content.end(); i != end; ++i)
     dumpv(*i, pos);
   printf(" )");
+}
+
+// L-int: the reference count of every Variant, walking the content lists
+static void dumprc(const Xml::Variant& v)
+{
+  switch(v.getType())
+  {
+  case Xml::Variant::elementType:
+    {
+      printf(" (%llu", (unsigned long long)v.data->ref);
+      const Xml::Element& e = v.toElement();
+      for(List<Xml::Variant>::Iterator i = e.content.begin(), end = e.content.end(); i != end; ++i)
+        dumprc(*i);
+      printf(" )");
+    }
+    break;
+  case Xml::Variant::textType: printf(" t%llu", (unsigned long long)v.data->ref); break;
+  default: printf(" nul"); break;
+  }
 }
 
 // parse an exact-size heap copy (n bytes + terminator) so that ASan sees any read beyond it
@@ -134,6 +159,11 @@ static void op(long c, long, vh::Tok& t)
     printf("%ld v", c);
     for(int k = 0; k < nslots; ++k) {
       if(!slot[k]) printf(" -"); else dumpv(*(const Xml::Variant*)slot[k], false);
+      printf(" ;");
+    }
+    printf(" |");
+    for(int k = 0; k < nslots; ++k) {
+      if(!slot[k]) printf(" -"); else dumprc(*(const Xml::Variant*)slot[k]);
       printf(" ;");
     }
     printf("\n");
